@@ -274,7 +274,9 @@ func recvName(fd *ast.FuncDecl) (string, bool) {
 }
 
 // abstractFile parses the generated file; the struct declarations in file order with their two methods.
-func abstractFile(path string) (*ObsFile, error) {
+// declName: the name a package declares (what an import WITHOUT an explicit name binds), "" if unknown (std packages:
+// the last path element).
+func abstractFile(path string, declName func(importPath string) string) (*ObsFile, error) {
 	fset := token.NewFileSet()
 	f, err := parser.ParseFile(fset, path, nil, parser.ParseComments|parser.SkipObjectResolution)
 	if err != nil {
@@ -286,6 +288,8 @@ func abstractFile(path string) (*ObsFile, error) {
 		name := ""
 		if im.Name != nil {
 			name = im.Name.Name
+		} else if d := declName(p); d != "" {
+			name = d
 		} else if i := strings.LastIndex(p, "/"); i >= 0 {
 			name = p[i+1:]
 		} else {
